@@ -7,6 +7,7 @@
     (min, max, limit) triples the getter received. *)
 From Coq Require Import List NArith ZArith Bool String.
 From ApiFu Require Import Base.Sexp TimeConn.TimeModel TimeConn.TimeSpec TimeConn.TimeErrModel TimeConn.TimeCursorCodec TimeConn.GoTimeModel TimeConn.DateTimeModel.
+From ApiFu Require Cost.CostModel.
 Import ListNotations.
 Open Scope string_scope.
 
@@ -32,7 +33,8 @@ Record step := {
   s_from_raw : option bytes;              (* the atOrAfterTime / beforeTime argument strings as sent *)
   s_to_raw : option bytes;
   s_raw : option rawcur;                  (* the cursor strings of the response *)
-  s_tccalls : Z                           (* calls of ResolveTotalCount *)
+  s_tccalls : Z;                          (* calls of ResolveTotalCount *)
+  s_cost : option (Z * Z * Z)             (* the field's cost: Resolver, Multiplier; the edges field's Multiplier *)
 }.
 Definition s_info (s : step) : bool := want_info (s_sel s).
 Definition s_pres (s : step) : list pres := map xp (s_xpres s).
@@ -211,7 +213,14 @@ Definition dec_step (s : sexp) : option step :=
                               s_xpres := ps'; s_obs := o'; s_calls := ts'; s_raised := rs'; s_tccalls := n';
                               s_after_raw := dec_rawarg "afterraw" a; s_before_raw := dec_rawarg "beforeraw" a;
                               s_from_raw := dec_rawarg "fromraw" a; s_to_raw := dec_rawarg "toraw" a;
-                              s_raw := dec_raw o |}
+                              s_raw := dec_raw o;
+                              s_cost := match field "cost" l with
+                                        | Some [x; y; z] => match as_Z x, as_Z y, as_Z z with
+                                                            | Some x', Some y', Some z' => Some (x', y', z')
+                                                            | _, _, _ => None
+                                                            end
+                                        | _ => None
+                                        end |}
                   | _, _, _ => None
                   end
               | _, _, _ => None
@@ -423,6 +432,29 @@ Definition compare_codec (i : nat) (s : step) : option sexp :=
     | ObPage _ _ _ _, None => bad "raw-cursors-missing"
     | _, _ => None
     end.
+
+(** ** The field's cost functions against C14's model of them (Cost/CostModel.v), and the page
+    against the edge multiplier they announce *)
+Definition argval_of (o : option Z) : CostModel.argval := match o with Some z => CostModel.AInt z | None => CostModel.AAbsent end.
+Definition compare_cost (i : nat) (s : step) : option sexp :=
+  let a := s_args s in
+  match s_cost s with
+  | None => Some (v_mismatch "cost-missing" [of_nat i])
+  | Some (r, m, em) =>
+      let fc := CostModel.default_connection_cost (argval_of (a_first a)) (argval_of (a_last a))
+                  {| CostModel.k_user := tt; CostModel.k_max_edge := None |} in
+      let mem := match CostModel.fc_ctx fc with
+                 | Some c => match CostModel.edges_cost c with Some e => CostModel.fc_m e | None => (-1)%Z end
+                 | None => (-1)%Z
+                 end in
+      if negb (Z.eqb r (CostModel.fc_r fc) && Z.eqb m (CostModel.fc_m fc) && Z.eqb em mem)
+      then Some (v_mismatch "connection-cost" [of_nat i])
+      else match s_obs s with
+           | ObPage es _ _ _ =>
+               if Z.ltb em (Z.of_nat (List.length es)) then Some (v_oracle_fail "page-exceeds-cost-multiplier" [of_nat i]) else None
+           | _ => None
+           end
+  end.
 
 (** ** The model against the observation *)
 Definition compare_step (E : list edge) (g : query -> list edge) (i : nat) (s : step) : option sexp :=
@@ -641,7 +673,10 @@ Definition check (c : sexp) : sexp :=
                 match first_some (oracle_step E g) 0 steps with
                 | Some v => v
                 | None =>
-                    match first_some (fun i s => match compare_step E g i s with Some v => Some v | None => compare_codec i s end) 0 steps with
+                    match first_some (fun i s => match compare_step E g i s with
+                                                     | Some v => Some v
+                                                     | None => match compare_codec i s with Some v => Some v | None => compare_cost i s end
+                                                     end) 0 steps with
                     | Some v => v
                     | None =>
                         let cls := dedup (flat_map (step_classes E g) steps) in
